@@ -297,6 +297,76 @@ def expected_form(form, d, hyper):
     return ks
 
 
+def definition_mismatches(form, got, d, hyper, a, e, i, rs, vs):
+    """(index, element name, observed, textbook value) for every one of the six numbers `got` of `form` that is not the
+    textbook value in `d` (= textbook(mu, cartesian state), with d['z'], d['vz'] added); tolerances of the property text,
+    widened by the conditioning of the element (1/e for the perigee-related angles, 1/sin i for the node-related ones)"""
+    bad = []
+    for idx, kname in enumerate(expected_form(form, d, hyper)):
+        exp = d[kname]
+        g = float(got[idx])
+        if kname in ANG:
+            if kname in ("E", "M", "α") and hyper:
+                # not angles on a hyperbola: compared as numbers (α = ω + M whole)
+                ok = abs(g - exp) <= 1e-6 * max(1.0, abs(exp))
+            else:
+                ok = angdiff(g, exp) <= 2e-6 / (e if kname in ("ω", "ν", "E", "M") and e < 1e-2 else 1.0) / (math.sin(i) if kname in ("Ω", "ω", "u", "α") and math.sin(i) < 0.1 else 1.0)
+        elif kname.endswith("_dot"):
+            sc = {"r_dot": vs, "rho_dot": vs, "θ_dot": vs / d["rho"], "φ_dot": vs / d["rho"]}[kname]
+            ok = abs(g - exp) <= 2e-5 * sc
+        else:
+            sc = {"a": abs(a), "r": rs, "rho": rs, "z": rs, "vz": vs, "n": d.get("n", 1.0)}.get(kname, 1.0)
+            ok = abs(g - exp) <= 1e-6 * sc * (1.0 / math.sin(i) if kname in ("ix", "iy") else 1.0) * (1 + abs(exp) if kname in ("ix", "iy") else 1.0)
+        if not (ok and math.isfinite(g)):
+            bad.append((idx, kname, g, exp))
+    return bad
+
+
+def infos_relations(inf, mu, rbody, truth, a, e, hyper):
+    """[(name, observed, value by the defining relation, scale)] for every quantity of the Infos object `inf`, the relations
+    being evaluated on the cartesian state `truth` with the `mu` / equatorial radius of the central body; a quantity that
+    raises ValueError where it is defined has observed = 'raises', an undefined one that does not raise has 'no-raise'"""
+    import numpy as np
+
+    def g(nm):
+        try:
+            v = getattr(inf, nm)
+        except ValueError:
+            return "raises"
+        return v.total_seconds() if hasattr(v, "total_seconds") else v
+    rs, vn = float(np.linalg.norm(truth[:3])), float(np.linalg.norm(truth[3:]))
+    h = float(np.linalg.norm(np.cross(truth[:3], truth[3:])))
+    rv = float(np.dot(truth[:3], truth[3:]))
+    energy = vn * vn / 2 - mu / rs
+    nmean = math.sqrt(mu / abs(a) ** 3)
+    cf, sf = g("cos_fpa"), g("sin_fpa")
+    checks = [("v", g("v"), vn, vn), ("energy", g("energy"), energy, abs(energy)), ("r", g("r"), rs, rs),
+              ("pericenter", g("pericenter"), a * (1 - e), abs(a)), ("rp", g("rp"), a * (1 - e), abs(a)),
+              ("vp", g("vp"), h / (a * (1 - e)), vn), ("n", g("n"), nmean, nmean),
+              ("cos_fpa", cf, h / (rs * vn), 1.0), ("sin_fpa", sf, rv / (rs * vn), 1.0),
+              ("fpa", g("fpa"), math.atan2(rv, h), 1.0),
+              ("cos2+sin2", "raises" if isinstance(cf, str) or isinstance(sf, str) else cf ** 2 + sf ** 2, 1.0, 1.0),
+              ("zp", g("zp"), a * (1 - e) - rbody, abs(a))]
+    if hyper:
+        checks += [("vinf", g("vinf"), math.sqrt(2 * energy), vn), ("dinf", g("dinf"), h / math.sqrt(2 * energy), abs(a) * e),
+                   ("type", float(inf.type == "hyperbolic"), 1.0, 1.0)]
+        for nm in ("period", "apocenter", "va"):
+            if g(nm) != "raises":
+                checks.append((nm, "no-raise", None, None))
+    else:
+        per = TWO_PI * math.sqrt(a ** 3 / mu)
+        checks += [("period", g("period"), per, per),
+                   ("apocenter", g("apocenter"), a * (1 + e), a), ("ra", g("ra"), a * (1 + e), a), ("va", g("va"), h / (a * (1 + e)), vn),
+                   ("za", g("za"), a * (1 + e) - rbody, a), ("type", float(inf.type == "elliptic"), 1.0, 1.0)]
+    return checks
+
+
+def infos_ok(nm, got, exp, sc):
+    if isinstance(got, str):
+        return False
+    return math.isfinite(float(got)) and abs(float(got) - exp) <= 1e-6 * sc + (1e-6 if nm == "period" else 0.0)
+
+
 def orbit_checks(out, fr, k, hyper, a, e, i, Om, om, M, EH):
     """all oracle predicates for one orbit given by mean elements (shared by the sweep and by replay)"""
     import numpy as np
@@ -334,28 +404,11 @@ def orbit_checks(out, fr, k, hyper, a, e, i, Om, om, M, EH):
             continue
         with np.errstate(all="ignore"):
             got = arr(cart.copy(form=form))
-        ks = expected_form(form, d, hyper)
         out.count(key=("def", form, k, a, e, nu), kind="definition-" + form, conic=conic)
-        for idx, kname in enumerate(ks):
-            exp = d[kname]
-            g = float(got[idx])
-            base = kname.split("_")[0]
-            if kname in ANG:
-                if kname in ("E", "M", "α") and hyper:
-                    # not angles on a hyperbola: compared as numbers (α = ω + M whole)
-                    ok = abs(g - exp) <= 1e-6 * max(1.0, abs(exp))
-                else:
-                    ok = angdiff(g, exp) <= 2e-6 / (e if kname in ("ω", "ν", "E", "M") and e < 1e-2 else 1.0) / (math.sin(i) if kname in ("Ω", "ω", "u", "α") and math.sin(i) < 0.1 else 1.0)
-            elif kname.endswith("_dot"):
-                sc = {"r_dot": vs, "rho_dot": vs, "θ_dot": vs / d["rho"], "φ_dot": vs / d["rho"]}[kname]
-                ok = abs(g - exp) <= 2e-5 * sc
-            else:
-                sc = {"a": abs(a), "r": rs, "rho": rs, "z": rs, "vz": vs, "n": d.get("n", 1.0)}.get(kname, 1.0)
-                ok = abs(g - exp) <= 1e-6 * sc * (1.0 / math.sin(i) if kname in ("ix", "iy") else 1.0) * (1 + abs(exp) if kname in ("ix", "iy") else 1.0)
-            if not (ok and math.isfinite(g)):
-                fam = "mean-circular-hyperbolic-M-mod-2pi" if (hyper and kname == "α") else f"definition-{form}-{kname}-{conic}"
-                out.fail(fam, f"{form}[{idx}] is not the textbook value of {kname} computed from the cartesian state",
-                         dict(inp, cartesian=[float(x) for x in truth]), observed=g, expected=float(exp))
+        for idx, kname, g, exp in definition_mismatches(form, got, d, hyper, a, e, i, rs, vs):
+            fam = "mean-circular-hyperbolic-M-mod-2pi" if (hyper and kname == "α") else f"definition-{form}-{kname}-{conic}"
+            out.fail(fam, f"{form}[{idx}] is not the textbook value of {kname} computed from the cartesian state",
+                     dict(inp, cartesian=[float(x) for x in truth]), observed=g, expected=float(exp))
     # 2. round trips over all ordered pairs
     for src in FORMS:
         if not defined_for(src, hyper):
@@ -378,33 +431,13 @@ def orbit_checks(out, fr, k, hyper, a, e, i, Om, om, M, EH):
                 out.fail(fam, f"{src} -> {dst} -> {src} does not return the same position and velocity",
                          dict(inp, cartesian=[float(x) for x in truth], src=src, dst=dst), observed=[float(x) for x in cb], expected=[float(x) for x in truth])
     # 3. Infos: defining relations
-    inf = cart.infos
-    vn = vs
-    h = np.linalg.norm(np.cross(truth[:3], truth[3:]))
-    energy = vn * vn / 2 - mu / rs
-    checks = [("v", inf.v, vn, vn), ("energy", inf.energy, energy, abs(energy)), ("r", inf.r, rs, rs),
-              ("pericenter", inf.pericenter, a * (1 - e), abs(a)), ("rp", inf.rp, a * (1 - e), abs(a)),
-              ("vp", inf.vp, h / (a * (1 - e)), vn), ("n", inf.n, math.sqrt(mu / abs(a) ** 3), math.sqrt(mu / abs(a) ** 3)),
-              ("cos_fpa", inf.cos_fpa, h / (rs * vn), 1.0), ("sin_fpa", inf.sin_fpa, float(np.dot(truth[:3], truth[3:])) / (rs * vn), 1.0),
-              ("fpa", inf.fpa, math.atan2(float(np.dot(truth[:3], truth[3:])), h), 1.0),
-              ("cos2+sin2", inf.cos_fpa ** 2 + inf.sin_fpa ** 2, 1.0, 1.0),
-              ("zp", inf.zp, a * (1 - e) - fr.center.body.equatorial_radius, abs(a))]
-    if hyper:
-        checks += [("vinf", inf.vinf, math.sqrt(2 * energy), vn), ("dinf", inf.dinf, h / math.sqrt(2 * energy), abs(a) * e),
-                   ("type", float(inf.type == "hyperbolic"), 1.0, 1.0)]
-        for nm in ("period", "apocenter", "va"):
-            try:
-                getattr(inf, nm)
-                out.fail("infos-" + nm + "-hyperbolic", f"infos.{nm} of a hyperbolic orbit does not raise", inp)
-            except ValueError:
-                pass
-    else:
-        checks += [("period", inf.period.total_seconds(), TWO_PI * math.sqrt(a ** 3 / mu), TWO_PI * math.sqrt(a ** 3 / mu)),
-                   ("apocenter", inf.apocenter, a * (1 + e), a), ("ra", inf.ra, a * (1 + e), a), ("va", inf.va, h / (a * (1 + e)), vn),
-                   ("za", inf.za, a * (1 + e) - fr.center.body.equatorial_radius, a), ("type", float(inf.type == "elliptic"), 1.0, 1.0)]
-    for nm, got, exp, sc in checks:
+    for nm, got, exp, sc in infos_relations(cart.infos, mu, fr.center.body.equatorial_radius, truth, a, e, hyper):
         out.count(key=("infos", nm, k, a, e, nu), kind="infos", conic=conic)
-        if not (math.isfinite(float(got)) and abs(float(got) - exp) <= 1e-6 * sc + (1e-6 if nm == "period" else 0.0)):
+        if got == "no-raise":
+            out.fail("infos-" + nm + "-hyperbolic", f"infos.{nm} of a hyperbolic orbit does not raise", inp)
+        elif got == "raises":
+            out.fail(f"infos-{nm}-{conic}-raises", f"infos.{nm} raises ValueError where it is defined", inp)
+        elif not infos_ok(nm, got, exp, sc):
             out.fail(f"infos-{nm}-{conic}", f"infos.{nm} violates its defining relation", dict(inp, cartesian=[float(x) for x in truth]),
                      observed=float(got), expected=float(exp))
 
@@ -450,9 +483,640 @@ def oracle(ctx, widened):
             fam = "m2e-hyperbolic-start-overflow" if (hyper and not math.isfinite(got) and abs(start_value(e, M)) > 709.0) else "m2e-residual-" + branch(e, M)
             out.fail(fam, "Form.M2E does not return a solution of Kepler's equation inside the property's domain",
                      {"e": e, "M": M, "true_E_or_H": EH, "start_value": start_value(e, M) if hyper else None}, observed=got, expected=EH)
-    out.sample({"checks": "mean->cartesian vs textbook, definition truth of 9 forms, 10x10 round trips, infos relations, M2E residual"})
+    # 5. histories of in-place operations on one object (element / slice / name assignment, in-place arithmetic, form and frame
+    #    setters, copy(frame=, form=), infos reads), several central bodies: every observable equals the pure function of the current state
+    hf = hist_frames()
+    for _ in range(500 if big else 70):
+        init, ops = gen_history(rng, hf, rng.randint(3, 14))
+        run_history(init, ops, hf, out)
+    for init, ops in pinned_histories(hf):
+        run_history(init, ops, hf, out)
+    out.sample({"checks": "mean->cartesian vs textbook, definition truth of 9 forms, 10x10 round trips, infos relations, M2E residual, "
+                          "operation histories on one object vs the cache-free reference semantics"})
     return out
 
+
+def pinned_histories(hf):
+    """hand-made histories that always run: read / modify in place / read again on every kind of write, and a change of centre
+    (Earth -> Moon, both the constant-offset centre and the one of beyond.env.solarsystem) in every mu-dependent form"""
+    by = {f["name"]: f["id"] for f in hf}
+    out = []
+    six = [7.2e6, 0.05, 0.9, 1.0, 2.0, 0.7]
+    rd = {"op": "infos", "how": "one-helper"}
+    rd2 = {"op": "infos", "how": "per-access"}
+    out.append(({"kind": "StateVector", "six": six, "form": "keplerian", "frame": by["EME2000"], "date": [2020, 1, 1]},
+                [rd, {"op": "setn", "name": "a", "v": 4.2164e7, "how": "attr"}, {"op": "setn", "name": "e", "v": 0.3, "how": "item"}, rd2,
+                 {"op": "form", "name": "cartesian", "how": "string"}, rd, {"op": "muls", "lo": 3, "hi": 6, "k": 1.1}, rd2,
+                 {"op": "frame", "id": by["MOD"], "how": "name"}, rd, {"op": "seti", "i": 0, "v": 9.0e6}, rd]))
+    # a lunar orbit seen from the Earth, taken back to a Moon-centred frame in each mu-dependent form
+    import numpy as np
+    from beyond.dates import Date
+    for moon in ("C01h_Moon_EME2000", "Moon"):
+        for n, form in enumerate(MU_FORMS):
+            date = [2021, 3, 4, 12]
+            ref = Ref([6.0e6, 0.5, 1.1, 0.4, 2.2, 4.0], Date(*date), "keplerian", hf[by[moon]])
+            r2 = ref._to_frame(hf[by["EME2000"]])
+            q = state_quality(r2.mu, r2.x)
+            if q is None or (q["e"] > 1 and form == "tle"):
+                continue
+            r2.form = form
+            r2.six = r2._view(form)
+            out.append(({"kind": "StateVector" if n % 2 else "Orbit", "six": r2.six, "form": form, "frame": by["EME2000"], "date": date},
+                        [{"op": "frame", "id": by[moon], "how": "object"}, rd2] if n % 3 else [rd, {"op": "copy", "id": by[moon], "how": "kwargs"}, rd]))
+    return out
+
+
+
+# ---------------------------------------------------------------- histories of in-place operations on one object
+#
+# Reference semantics (independent of the object under test, cache-free): the state is (six numbers, form, frame,
+# cartesian state x about the frame's centre).  A write changes the six numbers and x is recomputed from them by a
+# conversion on a FRESH object; a form change leaves x alone; a frame change maps x by the affine map between the
+# frames (rotation and offset taken from the orientation / centre objects, applied with numpy).  Every observable of
+# the real object after every operation must equal the pure function of (x, mu of the current centre).
+
+HIST = {}
+MU_FORMS = ("keplerian", "keplerian_eccentric", "keplerian_mean", "keplerian_circular", "keplerian_mean_circular", "equinoctial", "tle")
+RBODY = {"Earth": 6.4e6, "Moon": 1.8e6, "Sun": 7e8, "Mars": 3.4e6}
+# offsets (m, m/s) of the centres made for this check, relative to the Earth, EME2000 axes
+HIST_OFFSETS = {
+    "Moon": [3.2e8, -1.9e8, 0.9e8, 450.0, 850.0, 200.0],
+    "Sun": [1.2e11, -0.8e11, -0.35e11, 16000.0, 24000.0, 9000.0],
+    "Mars": [-0.3e11, -2.4e11, -0.95e11, 34000.0, 10000.0, 2000.0],
+}
+
+
+def hist_frames():
+    """frames used by the histories: Earth-centred built-in ones (several orientations, one rotating), frames about
+    centres with other bodies (Moon, Sun, Mars) linked to the Earth by a constant offset — two orientations each —,
+    and the Moon / Sun frames of beyond.env.solarsystem (moving centres).  List of dicts, index = the id the model uses."""
+    if HIST:
+        return HIST["frames"]
+    import numpy as np
+    from beyond.frames import frames as fr, orient, center
+    from beyond import constants
+    from beyond.env import solarsystem
+    out = []
+    for n in ("EME2000", "MOD", "TOD", "TEME", "G50", "GCRF", "ITRF"):
+        out.append({"frame": fr.get_frame(n), "centre": "Earth", "body": constants.Earth})
+    for bn, off in HIST_OFFSETS.items():
+        body = getattr(constants, bn)
+        c = center.Center("C01h_" + bn, body=body)
+        c.add_link(center.Earth, orient.EME2000, np.array(off))
+        for on in ("EME2000", "MOD"):
+            f = fr.Frame(f"C01h_{bn}_{on}", getattr(orient, on), c, exists_warning=False)
+            out.append({"frame": f, "centre": "C01h_" + bn, "body": body})
+    import logging
+    logging.getLogger("beyond.frames.frames").setLevel(logging.ERROR)
+    for bn in ("Moon", "Sun"):
+        f = solarsystem.get_frame(bn)
+        out.append({"frame": f, "centre": "ss" + bn, "body": getattr(constants, bn)})
+    for i, d in enumerate(out):
+        d["id"] = i
+        d["name"] = d["frame"].name
+    HIST["frames"] = out
+    return out
+
+
+def affine_between(old, new, date):
+    """(6x6 matrix, offset) of the change of frame old -> new at `date`, from the orientation and centre objects"""
+    import numpy as np
+    key = (old.name, new.name, str(date))
+    c = HIST.setdefault("affine", {})
+    if key not in c:
+        m = np.array(old.orientation.convert_to(date, new.orientation), dtype=float)
+        off = np.array(old.center.convert_to(date, new.center, new.orientation), dtype=float).reshape(6)
+        c[key] = (m, off)
+    return c[key]
+
+
+def fresh(six, date, form, frame):
+    from beyond.orbits import StateVector
+    return StateVector([float(v) for v in six], date, form, frame)
+
+
+def state_quality(mu, x):
+    """None if the cartesian state is outside the property's quantifier (or so close to a singularity of some form
+    that 1e-6 is not attainable in doubles), else the dict of its textbook elements"""
+    import numpy as np
+    if not np.all(np.isfinite(x)):
+        return None
+    try:
+        d = textbook(mu, x)
+    except (ValueError, ZeroDivisionError, FloatingPointError):
+        return None
+    e, i = d["e"], d["i"]
+    if not (all(math.isfinite(float(v)) for v in d.values())):
+        return None
+    sl = 1e-7     # the boundary values themselves (e = 1e-4, 0.99, 1.001, 20; i = 0.01, pi - 0.01) are inside, whatever the rounding
+    if not ((1e-4 * (1 - sl) <= e <= 0.99 + sl) or (1.001 - sl <= e <= 20.0 + sl)):
+        return None
+    if not (0.01 - sl <= i <= math.pi - 0.01 + sl):
+        return None
+    if d["rho"] < 1e-2 * d["r"]:
+        return None
+    if e > 1 and (abs(d["E"]) > 6.0 or 1 + e * math.cos(d["ν"]) < 1e-3):
+        return None
+    if e < 1 and d["a"] <= 0 or e > 1 and d["a"] >= 0:
+        return None
+    d["z"], d["vz"] = float(x[2]), float(x[5])
+    return d
+
+
+class Ref:
+    """the reference semantics of one object"""
+
+    def __init__(self, six, date, form, fe, x=None):
+        import numpy as np
+        self.six = [float(v) for v in six]
+        self.date, self.form, self.fe = date, form, fe
+        with np.errstate(all="ignore"):
+            self.x = arr(fresh(six, date, form, fe["frame"]).copy(form="cartesian")) if x is None else np.array(x, dtype=float)
+        self.mu = fe["body"].mu
+
+    def clone(self):
+        return Ref(self.six, self.date, self.form, self.fe, self.x)
+
+    def _view(self, form):
+        import numpy as np
+        with np.errstate(all="ignore"):
+            return [float(v) for v in arr(fresh(self.x, self.date, "cartesian", self.fe["frame"]).copy(form=form))]
+
+    def apply(self, op, frames):
+        """the state after `op` and what the operation must report ('D' done, 'A' AttributeError/KeyError, 'U' UnknownFormError)"""
+        import numpy as np
+        from beyond.orbits import forms
+        r = self.clone()
+        k = op["op"]
+        tag = "D"
+        if k in ("seti", "muls", "adds", "sets", "setn"):
+            six = list(r.six)
+            if k == "seti":
+                six[op["i"]] = op["v"]
+            elif k == "muls":
+                for j in range(op["lo"], op["hi"]):
+                    six[j] = six[j] * op["k"]
+            elif k == "adds":
+                for j in range(op["lo"], op["hi"]):
+                    six[j] = six[j] + op["k"]
+            elif k == "sets":
+                for j, v in enumerate(op["vs"]):
+                    six[op["lo"] + j] = v
+            else:
+                name = forms.Form.alt.get(op["name"], op["name"])
+                pn = forms._cache[r.form].param_names
+                if name in pn:
+                    six[pn.index(name)] = op["v"]
+                else:
+                    return r, ("A" if name in forms._cache_param_names else "D")
+            return Ref(six, r.date, r.form, r.fe), tag
+        if k == "form":
+            t = forms._cache.get(op["name"].lower())
+            if t is None:
+                return r, "U"
+            if t.name != r.form:
+                r.form = t.name
+                r.six = r._view(t.name)
+            return r, tag
+        if k == "frame":
+            return r._to_frame(frames[op["id"]]), tag
+        if k == "copy":
+            if op.get("id") is not None:
+                r = r._to_frame(frames[op["id"]])
+            if op.get("name") is not None:
+                r, tag = r.apply({"op": "form", "name": op["name"]}, frames)
+            return r, tag
+        if k == "infos":
+            return r, "I"
+        raise ValueError(k)
+
+    def _to_frame(self, fe):
+        r = self.clone()
+        if fe["frame"] is r.fe["frame"]:
+            return r
+        m, off = affine_between(r.fe["frame"], fe["frame"], r.date)
+        r.x = m @ r.x + off
+        r.fe, r.mu = fe, fe["body"].mu
+        r.six = r._view(r.form)
+        return r
+
+
+INFOS_READ = ["r", "energy", "n", "period", "apocenter", "pericenter", "v", "va", "vp", "vinf", "dinf", "cos_fpa", "sin_fpa", "fpa"]   # "r" + INFOS
+INFOS_MORE = ["zp", "za", "ra", "rp"]
+
+
+def read_infos(sv, per_access):
+    """the 14 modelled quantities (None where ValueError is raised) — through ONE helper (`inf = sv.infos`) or through a
+    new access `sv.infos` per quantity"""
+    inf = None if per_access else sv.infos
+    vals = []
+    for nm in INFOS_READ:
+        try:
+            v = getattr(sv.infos if per_access else inf, nm)
+            vals.append(float(v.total_seconds()) if hasattr(v, "total_seconds") else float(v))
+        except ValueError:
+            vals.append(None)
+    return vals
+
+
+def real_apply(sv, op, frames):
+    """perform `op` on the real object; returns (object to continue with, tag, infos values or None)"""
+    import numpy as np
+    from beyond.orbits import forms
+    from beyond.errors import UnknownFormError
+    k = op["op"]
+    try:
+        with np.errstate(all="ignore"):
+            if k == "seti":
+                sv[op["i"]] = op["v"]
+            elif k == "muls":
+                sv[op["lo"]:op["hi"]] *= op["k"]
+            elif k == "adds":
+                sv[op["lo"]:op["hi"]] += op["k"]
+            elif k == "sets":
+                sv[op["lo"]:op["lo"] + len(op["vs"])] = op["vs"]
+            elif k == "setn":
+                if op.get("how") == "item":
+                    sv[op["name"]] = op["v"]
+                else:
+                    setattr(sv, op["name"], op["v"])
+            elif k == "form":
+                sv.form = forms.get_form(op["name"]) if op.get("how") == "object" else op["name"]
+            elif k == "frame":
+                sv.frame = frames[op["id"]]["name"] if op.get("how") == "name" else frames[op["id"]]["frame"]
+            elif k == "copy":
+                kw = {}
+                if op.get("id") is not None:
+                    kw["frame"] = frames[op["id"]]["frame"]
+                if op.get("name") is not None:
+                    kw["form"] = op["name"]
+                if op.get("how") == "same" and len(kw) == 2:
+                    from beyond.orbits import StateVector
+                    tmpl = StateVector([1.0] * 6, sv.date, forms.get_form(op["name"]), kw["frame"])
+                    sv = sv.copy(same=tmpl)
+                else:
+                    sv = sv.copy(**kw)
+            elif k == "infos":
+                return sv, "I", read_infos(sv, op.get("how") == "per-access")
+            else:
+                raise ValueError(k)
+    except (AttributeError, KeyError):
+        return sv, "A", None
+    except UnknownFormError:
+        return sv, "U", None
+    return sv, "D", None
+
+
+def make_object(init, frames):
+    """the object a history starts from, built the way `init['kind']` says; returns (object, sibling or None)"""
+    import pickle
+    from beyond.orbits import StateVector, Orbit
+    from beyond.dates import Date
+    date = Date(*init["date"])
+    fe = frames[init["frame"]]
+    frame = fe["name"] if init.get("frame_by_name") else fe["frame"]
+    kind = init["kind"]
+    sib = None
+    if kind == "Orbit":
+        sv = Orbit(init["six"], date, init["form"], frame, None)
+    else:
+        sv = StateVector(init["six"], date, init["form"], frame)
+        if kind == "copy":
+            sv = sv.copy()
+        elif kind == "pickle":
+            sv = pickle.loads(pickle.dumps(sv))
+        elif kind == "as_orbit":
+            sv = sv.as_orbit(None)
+        elif kind == "copy-after-read":
+            sib = sv
+            read_infos(sib, False)
+            sv = sib.copy()
+        elif kind == "pickle-after-read":
+            sib = sv
+            read_infos(sib, True)
+            sv = pickle.loads(pickle.dumps(sib))
+    return sv, sib, date
+
+
+def op_tokens(op, ref_before, frames):
+    """the operation in the line protocol of the Lean driver (`hist …`)"""
+    k = op["op"]
+    if k == "seti":
+        return ["seti", str(op["i"]), f2b(op["v"])]
+    if k == "setn":
+        return ["setn", op["name"], f2b(op["v"])]
+    if k in ("muls", "adds"):
+        return [k, str(op["lo"]), str(op["hi"]), f2b(op["k"])]
+    if k == "sets":
+        return ["sets", str(op["lo"]), str(len(op["vs"]))] + [f2b(v) for v in op["vs"]]
+    if k == "form":
+        return ["form", op["name"]]
+
+    def fr_toks(i):
+        fe = frames[i]
+        if fe["frame"] is ref_before.fe["frame"]:
+            import numpy as np
+            m, off = np.identity(6), np.zeros(6)
+        else:
+            m, off = affine_between(ref_before.fe["frame"], fe["frame"], ref_before.date)
+        return [str(i), f2b(fe["body"].mu)] + [f2b(v) for v in m.reshape(36)] + [f2b(v) for v in off]
+    if k == "frame":
+        return ["frame"] + fr_toks(op["id"])
+    if k == "copy":
+        t = ["copy"]
+        t += (["1"] + fr_toks(op["id"])) if op.get("id") is not None else ["0"]
+        t += ["1", op["name"]] if op.get("name") is not None else ["0"]
+        return t
+    if k == "infos":
+        return ["infos"]
+    raise ValueError(k)
+
+
+ALIASES = None
+
+
+def _aliases():
+    global ALIASES
+    if ALIASES is None:
+        from beyond.orbits import forms
+        by = {}
+        for al, nm in forms.Form.alt.items():
+            by.setdefault(nm, []).append(al)
+        names = {}
+        for al, f in forms._cache.items():
+            names.setdefault(f.name, []).append(al)
+        ALIASES = (by, names)
+    return ALIASES
+
+
+def form_name_variant(rng, canonical):
+    """one of the accepted spellings of a form name (`forms._cache` aliases, any case)"""
+    n = rng.choice(_aliases()[1][canonical])
+    r = rng.random()
+    return n.upper() if r < 0.1 else n.capitalize() if r < 0.2 else n
+
+
+def gen_start(rng, frames):
+    """an object description inside the quantifier: elements about one centre, often such that the state is also inside
+    the quantifier about another centre with a different body (so that a change of centre is possible later)"""
+    import numpy as np
+    for _ in range(200):
+        fe = rng.choice(frames)
+        bn = fe["body"].name
+        date = rng.choice([(2020, 1, 1), (2021, 3, 4, 12), (2018, 7, 20, 6, 30)])
+        from beyond.dates import Date
+        d = Date(*date)
+        hyper = rng.random() < 0.35
+        rb = RBODY[bn]
+        if hyper:
+            e = rng.choice([1.001, 1.2, 1.59, 3.61, 20.0]) if rng.random() < 0.2 else 1.001 + (rng.random() ** 2) * 18.999
+            a = -rb * math.exp(rng.uniform(0.0, 4.0))
+            H = rng.uniform(-4, 4)
+            M, EH = e * math.sinh(H) - H, H
+        else:
+            e = rng.choice([1e-4, 0.002, 0.5, 0.99]) if rng.random() < 0.2 else rng.uniform(1e-4, 0.99)
+            a = rb * math.exp(rng.uniform(0.05, 4.0))
+            EH = rng.uniform(-TWO_PI, 2 * TWO_PI)
+            M = EH - e * math.sin(EH)
+        i = rng.choice([0.01, math.pi / 2, math.pi - 0.01, 1.0, 2.5]) if rng.random() < 0.15 else rng.uniform(0.01, math.pi - 0.01)
+        Om, om = rng.uniform(0, TWO_PI), rng.uniform(0, TWO_PI)
+        mu = fe["body"].mu
+        nu = nu_from_anomaly(hyper, e, EH)
+        src = source_coords(mu, hyper, a, e, i, Om, om, M, EH, nu, rng)
+        x = np.array(src["cartesian"])
+        if state_quality(mu, x) is None:
+            continue
+        form = rng.choice(sorted(src))
+        kind = rng.choice(["StateVector", "StateVector", "Orbit", "copy", "pickle", "as_orbit", "copy-after-read", "pickle-after-read"])
+        return {"kind": kind, "six": [float(v) for v in src[form]], "form": form, "frame": fe["id"], "date": list(date),
+                "frame_by_name": rng.random() < 0.3}
+    raise RuntimeError("no start state found")
+
+
+def propose_op(rng, ref, frames, reads_pending):
+    """a random operation on an object whose reference state is `ref` (no check yet that the result stays inside the quantifier)"""
+    from beyond.orbits import forms
+    r = rng.random()
+    hyper = state_quality(ref.mu, ref.x)["e"] > 1
+    pn = forms._cache[ref.form].param_names
+    if r < 0.22:
+        return {"op": "infos", "how": rng.choice(["one-helper", "per-access"])}
+    if r < 0.42:
+        t = rng.choice([f for f in FORMS if defined_for(f, hyper)])
+        return {"op": "form", "name": form_name_variant(rng, t), "how": rng.choice(["string", "object"])}
+    if r < 0.57:
+        # prefer a frame about another body
+        cand = [f for f in frames if f["body"] is not ref.fe["body"]] if rng.random() < 0.6 else frames
+        fe = rng.choice(cand)
+        return {"op": "frame", "id": fe["id"], "how": rng.choice(["object", "name"])}
+    if r < 0.65:
+        op = {"op": "copy", "how": rng.choice(["kwargs", "same"])}
+        if rng.random() < 0.6:
+            op["id"] = rng.choice(frames)["id"]
+        if rng.random() < 0.7:
+            op["name"] = form_name_variant(rng, rng.choice([f for f in FORMS if defined_for(f, hyper)]))
+        return op
+    if r < 0.68:
+        # a name of another form (or no element at all): AttributeError / KeyError, state unchanged
+        others = sorted(set(forms._cache_param_names) - set(pn)) + ["comment"]
+        return {"op": "setn", "name": rng.choice(others), "v": rng.uniform(-1, 1), "how": rng.choice(["attr", "item"])}
+    # in-place writes
+    ang = set(ANGLE_IDX[ref.form])
+    if hyper and ref.form in ("keplerian_eccentric", "keplerian_mean", "keplerian_mean_circular"):
+        ang -= {5}
+    w = rng.random()
+    if ref.form == "cartesian" and w < 0.5:
+        lo, hi = rng.choice([(0, 3), (3, 6), (0, 6), (3, 4), (2, 3)])
+        return {"op": "muls", "lo": lo, "hi": hi, "k": rng.uniform(0.8, 1.2)}
+    if w < 0.25:
+        # a whole new orbit about the same centre, written through a slice
+        for _ in range(20):
+            st = gen_start(rng, [ref.fe])
+            f = fresh(st["six"], ref.date, st["form"], ref.fe["frame"])
+            h2 = state_quality(ref.mu, arr(f.copy(form="cartesian")))["e"] > 1
+            if defined_for(ref.form, h2):
+                return {"op": "sets", "lo": 0, "vs": [float(v) for v in arr(f.copy(form=ref.form))]}
+    j = rng.randrange(6)
+    cur = ref.six[j]
+    if j in ang:
+        v = rng.uniform(-TWO_PI, 2 * TWO_PI)
+        if w < 0.6:
+            return {"op": "adds", "lo": j, "hi": j + 1, "k": rng.uniform(-2.0, 2.0)}
+    else:
+        v = cur * rng.uniform(0.85, 1.15) if cur != 0 else rng.uniform(-1, 1)
+        if w < 0.45:
+            return {"op": "muls", "lo": j, "hi": j + 1, "k": rng.uniform(0.85, 1.15)}
+    if w < 0.8:
+        by = _aliases()[0]
+        name = rng.choice([pn[j]] + by.get(pn[j], []))
+        return {"op": "setn", "name": name, "v": v, "how": rng.choice(["attr", "item"])}
+    return {"op": "seti", "i": j, "v": v}
+
+
+def gen_history(rng, frames, n_ops):
+    """(init, [op …]): a start object and a history of operations every state of which lies inside the quantifier"""
+    init = gen_start(rng, frames)
+    from beyond.dates import Date
+    ref = Ref(init["six"], Date(*init["date"]), init["form"], frames[init["frame"]])
+    ops = []
+    for _ in range(n_ops):
+        for _try in range(12):
+            op = propose_op(rng, ref, frames, None)
+            try:
+                r2, tag = ref.apply(op, frames)
+            except Exception:
+                continue
+            q = state_quality(r2.mu, r2.x)
+            if q is None or (q["e"] > 1 and r2.form == "tle"):
+                continue
+            if op["op"] == "copy" and op.get("id") is not None:
+                # copy() changes the frame first, in the form the object has: that intermediate state must be inside the quantifier too
+                mid = ref._to_frame(frames[op["id"]])
+                qm = state_quality(mid.mu, mid.x)
+                if qm is None or (qm["e"] > 1 and mid.form == "tle"):
+                    continue
+            if op["op"] in ("seti", "muls", "adds", "sets", "setn") and r2.form != "cartesian":
+                # the numbers written must themselves be elements inside the quantifier (0 <= e, 0 < i < pi, r > 0, |phi| < pi/2 …):
+                # they are the canonical elements of the state they describe
+                import numpy as np
+                if definition_mismatches(r2.form, r2.six, q, q["e"] > 1, q["a"], q["e"], q["i"], float(np.linalg.norm(r2.x[:3])), float(np.linalg.norm(r2.x[3:]))):
+                    continue
+            ops.append(op)
+            ref = r2
+            break
+    if not ops or ops[-1]["op"] != "infos":
+        ops.append({"op": "infos", "how": "per-access"})
+    return init, ops
+
+
+def history_family(op, ref_before, ref_after, wrote_since_read):
+    """where in the space of operations a failure sits"""
+    k = op["op"]
+    if k in ("seti", "muls", "adds", "sets", "setn"):
+        return f"write-{k}-{ref_before.form}"
+    if k == "form":
+        return f"form-{ref_before.form}-to-{ref_after.form}"
+    if k in ("frame", "copy"):
+        same = "same-body" if ref_before.fe["body"] is ref_after.fe["body"] else "other-body"
+        if ref_before.fe["frame"] is ref_after.fe["frame"]:
+            same = "same-frame"
+        return f"{k}-{same}-{'mu-form' if ref_after.form in MU_FORMS else 'geometric-form'}"
+    return "infos-" + ("after-write" if wrote_since_read else "no-write")
+
+
+def run_history(init, ops, frames, out=None, want_tokens=False):
+    """drive a real object through `ops`; after every operation compare every observable with the reference semantics
+    (`out`: oracle outcome to report into).  Returns the list of per-step records for the correspondence."""
+    import numpy as np
+    sv, sib, date = make_object(init, frames)
+    ref = Ref(init["six"], date, init["form"], frames[init["frame"]])
+    sib_six = None if sib is None else arr(sib).copy()
+    steps = []
+    changed_since_read = init["kind"].endswith("after-read")   # the helper of the sibling was read before the copy was taken
+    hist_input = {"init": init, "ops": ops}
+    for n, op in enumerate(ops):
+        before = ref
+        toks = op_tokens(op, before, frames) if want_tokens else None
+        try:
+            with watchdog(10.0):
+                ref, tag = before.apply(op, frames)
+                sv, rtag, vals = real_apply(sv, op, frames)
+        except Hang:
+            if out is not None:
+                out.fail("history-no-return", "an operation of this history does not return within 10 s", dict(hist_input, step=n))
+            break
+        if tag == "D":
+            changed_since_read = True      # any operation other than a read may have changed what a memo was taken for
+        six = arr(sv).copy()
+        q = state_quality(ref.mu, ref.x)
+        fam0 = "history-" + history_family(op, before, ref, changed_since_read)
+        steps.append({"toks": toks, "tag": rtag, "six": [float(v) for v in six], "infos": vals, "form": ref.form, "mu": ref.mu,
+                      "q": q, "x": ref.x, "fam": fam0, "step": n})
+        if out is not None:
+            conic = "hyp" if q["e"] > 1 else "ell"
+            out.count(key=("hist", n, repr(op), init["six"][0]), kind="history-" + op["op"], conic=conic,
+                      **({"centre": ref.fe["body"].name} if op["op"] in ("frame", "copy", "infos") else {}),
+                      **({"change": fam0.split("-", 2)[2]} if op["op"] in ("frame", "copy") else {}),
+                      **({"infos": "after-change" if changed_since_read else "unchanged"} if op["op"] == "infos" else {}))
+            inp = dict(hist_input, step=n, body=ref.fe["body"].name, frame=ref.fe["name"], form=ref.form)
+            if history_checks(out, sv, six, rtag, tag, vals, ref, q, fam0, inp, op):
+                break       # the object is wrong from here on: later steps would only repeat the finding
+        if op["op"] == "infos":
+            changed_since_read = False
+    if out is not None and sib is not None:
+        # the object the copy was taken from has not been touched
+        out.count(key=("sibling", init["six"][0], len(ops)), kind="history-sibling")
+        r0 = Ref(init["six"], date, init["form"], frames[init["frame"]])
+        if not np.array_equal(arr(sib), sib_six) or sib.form.name != init["form"]:
+            out.fail("history-sibling-changed", "operations on a copy changed the object it was copied from", hist_input,
+                     observed=[float(v) for v in arr(sib)], expected=[float(v) for v in sib_six])
+        else:
+            q0 = state_quality(r0.mu, r0.x)
+            for nm, got, exp, sc in infos_relations(sib.infos, r0.mu, r0.fe["body"].equatorial_radius, r0.x, q0["a"], q0["e"], q0["e"] > 1):
+                if isinstance(got, str) or not infos_ok(nm, got, exp, sc):
+                    out.fail(f"history-sibling-infos-{nm}", f"infos.{nm} of the untouched original violates its defining relation after operations on its copy",
+                             hist_input, observed=None if isinstance(got, str) else float(got), expected=exp)
+    return steps
+
+
+def history_checks(out, sv, six, rtag, tag, vals, ref, q, fam0, inp, op):
+    """the property's three clauses on the state the object holds NOW (reference: `ref`)"""
+    import numpy as np
+    hyper = q["e"] > 1
+    rs, vs = float(np.linalg.norm(ref.x[:3])), float(np.linalg.norm(ref.x[3:]))
+    if rtag != tag and not (tag == "I" and rtag == "I"):
+        out.fail(fam0 + "-outcome", f"the operation ended as {rtag!r}, expected {tag!r} (D done, A AttributeError/KeyError, U UnknownFormError)", inp,
+                 observed=rtag, expected=tag)
+        return True
+    if sv.form.name != ref.form or sv.frame.name != ref.fe["name"] or sv.frame.center.body.name != ref.fe["body"].name:
+        out.fail(fam0 + "-label", "form / frame of the object after the operation", inp, observed=[sv.form.name, sv.frame.name], expected=[ref.form, ref.fe["name"]])
+        return True
+    if not np.all(np.isfinite(six)):
+        out.fail(fam0 + "-non-finite", "the six numbers are not finite after the operation", inp, observed=[float(v) for v in six], expected=ref.six)
+        return True
+    # clause 2: the six numbers are the textbook elements of the state about the CURRENT centre (its mu)
+    if ref.form == "cartesian":
+        bad = [(j, "xyz"[j % 3] if j < 3 else "v" + "xyz"[j - 3], float(six[j]), float(ref.x[j])) for j in range(6)
+               if abs(six[j] - ref.x[j]) > 1e-6 * (rs if j < 3 else vs)]
+    else:
+        bad = definition_mismatches(ref.form, six, q, hyper, q["a"], q["e"], q["i"], rs, vs)
+    for idx, kname, g, exp in bad[:1]:
+        out.fail(f"{fam0}-definition-{kname}", f"after the operation, {ref.form}[{idx}] is not the textbook value of {kname} for the state the object holds "
+                 f"(cartesian state and mu of the centre of its current frame, {ref.fe['body'].name})", dict(inp, cartesian=[float(v) for v in ref.x]),
+                 observed=g, expected=float(exp))
+        return True
+    # clause 1: the position and velocity the object stands for, directly and through another form
+    with np.errstate(all="ignore"):
+        c1 = arr(sv.copy(form="cartesian"))
+        via = FORMS[(inp["step"] * 7 + len(ref.form)) % len(FORMS)]
+        c2 = arr(sv.copy(form=via).copy(form="cartesian")) if defined_for(via, hyper) else c1
+    for what, c in (("cartesian", c1), (via, c2)):
+        if not (np.all(np.isfinite(c)) and np.linalg.norm(c[:3] - ref.x[:3]) <= 1e-6 * rs and np.linalg.norm(c[3:] - ref.x[3:]) <= 1e-6 * vs):
+            out.fail(f"{fam0}-position-velocity", f"after the operation, the object converted to cartesian (through {what}) is not the position and velocity it must hold",
+                     dict(inp, via=what), observed=[float(v) for v in c], expected=[float(v) for v in ref.x])
+            return True
+    # clause 3: derived quantities, defining relations on the current state, with mu and radius of the current body
+    if op["op"] == "infos":
+        by = dict(zip(INFOS_READ, vals))
+        rel = infos_relations(sv.infos, ref.mu, ref.fe["body"].equatorial_radius, ref.x, q["a"], q["e"], hyper)
+        for nm, got, exp, sc in rel:
+            if nm in by and by[nm] is not None and not isinstance(got, str):
+                got = by[nm]     # the value read as the operation itself
+            if isinstance(got, str):
+                out.fail(f"{fam0}-{nm}-{got}", f"infos.{nm}: {'no ValueError although the orbit the object holds now is hyperbolic' if got == 'no-raise' else 'ValueError although it is defined for the orbit the object holds now'}", inp)
+                return True
+            if not infos_ok(nm, got, exp, sc):
+                out.fail(f"{fam0}-{nm}", f"infos.{nm} does not obey its defining relation for the state the object holds now "
+                         f"(central body {ref.fe['body'].name})", dict(inp, cartesian=[float(v) for v in ref.x]), observed=float(got), expected=float(exp))
+                return True
+        # … and equal to what a freshly constructed object with the same cartesian values, frame and date reports
+        fr_vals = read_infos(fresh(ref.x, ref.date, "cartesian", ref.fe["frame"]), False)
+        for nm, a_, b_ in zip(INFOS_READ, vals, fr_vals):
+            if (a_ is None) != (b_ is None) or (a_ is not None and not (abs(a_ - b_) <= 1e-6 * max(abs(a_), abs(b_), 1e-300) + (1e-6 if nm in ("period", "fpa", "sin_fpa", "cos_fpa") else 0.0))):
+                out.fail(f"{fam0}-{nm}-vs-fresh-object", f"infos.{nm} differs from what a freshly constructed object with the same cartesian values, frame and date reports",
+                         inp, observed=a_, expected=b_)
+                return True
+    return False
 
 # ---------------------------------------------------------------- extract: formulas and tables regenerated from /repo
 
@@ -905,6 +1569,86 @@ def cmp_vec(out, fam, what, inp, real, model, form, scales, hyper, cond=1.0):
     return True
 
 
+
+def hist_discrepancy(real, model, form, mu, q, x, hyper):
+    """largest difference between the six numbers of the real object and of the Lean model, in units of the natural scale
+    of each component (angles on the circle)"""
+    sc = out_scales(form, mu, q["a"], x)
+    worst = 0.0
+    for idx in range(6):
+        a, b = float(real[idx]), float(model[idx])
+        if not (math.isfinite(a) and math.isfinite(b)):
+            if math.isfinite(a) or math.isfinite(b):
+                return float("inf")
+            continue
+        if idx in ANGLE_IDX[form] and not (hyper and idx == 5 and form in ("keplerian_eccentric", "keplerian_mean", "keplerian_mean_circular")):
+            d = angdiff(a, b)
+        else:
+            d = abs(a - b) / max(abs(a), abs(b), sc[idx] if idx < 3 or form in ("cartesian", "spherical", "cylindrical", "tle") else 1.0)
+        worst = max(worst, d)
+    return worst
+
+
+def state_cond(q):
+    """how much one rounding error of a conversion is amplified at this state (1/e for the perigee-related angles, 1/(1-e) near
+    the parabola, 1/sin i for the node-related angles, cosh^2 H for the hyperbolic anomaly)"""
+    e = q["e"]
+    c = max(1.0, 1e-3 / e) * (1 / (1 - e) if e < 1 else max(1.0, 0.1 / (e - 1))) * max(1.0, 0.1 / math.sin(q["i"])) * max(1.0, 0.05 * q["r"] / q["rho"])
+    if e > 1:
+        c *= max(1.0, 1e-3 * math.cosh(q["E"]) ** 2)
+    return c
+
+
+def hist_correspondence(ctx, out, reqs, meta):
+    """operation histories: the real object vs the state machine of Model/SVMachine (one request line per history)"""
+    rng = ctx.rng
+    hf = hist_frames()
+    todo = [gen_history(rng, hf, rng.randint(3, 12)) for _ in range(ctx.n(150, 3000))] + pinned_histories(hf)
+    for init, ops in todo:
+        steps = run_history(init, ops, hf, None, want_tokens=True)
+        fe = hf[init["frame"]]
+        reqs.append(" ".join(["hist", init["form"], str(fe["id"]), f2b(fe["body"].mu)] + [f2b(v) for v in init["six"]] + [t for st in steps for t in st["toks"]]))
+        meta.append(("hist", steps, None, None, None, 1.0, {"init": init, "ops": ops}))
+        for st, op in zip(steps, ops):
+            out.count(key=(reqs[-1][:60], st["step"]), kind="hist-" + op["op"], **({"hist_change": st["fam"].split("-", 2)[2]} if op["op"] in ("frame", "copy") else {}))
+
+
+def hist_compare(out, steps, rep, inp):
+    segs = [x.strip() for x in rep.split("|")]
+    if len(segs) != len(steps) or segs[-1] in ("fuel", "bad-op"):
+        out.fail("hist", f"the model does not run the whole history ({segs[-1][:20]})", inp, observed=[st["tag"] for st in steps], expected=[x[:1] for x in segs])
+        return
+    budget = 0.0
+    rmax = 0.0
+    for st, seg in zip(steps, segs):
+        toks = seg.split()
+        q, x = st["q"], st["x"]
+        hyper = q["e"] > 1
+        rmax = max(rmax, q["r"])
+        budget += state_cond(q) * rmax / q["r"]
+        if toks[0] != st["tag"]:
+            out.fail(st["fam"].replace("history-", "hist-") + "-outcome", "the operation ends differently on the real object and in the model (D done, A AttributeError, U UnknownFormError, I infos)",
+                     dict(inp, step=st["step"]), observed=st["tag"], expected=toks[0])
+            return
+        model = [b2f(t) for t in toks[1:7]]
+        d = hist_discrepancy(st["six"], model, st["form"], st["mu"], q, x, hyper)
+        out.notes_max = max(getattr(out, "notes_max", 0.0), d / budget)
+        if not d <= 2e-10 * budget:
+            out.fail(st["fam"].replace("history-", "hist-"), "the six numbers of the real object after this operation differ from those of the state machine model",
+                     dict(inp, step=st["step"]), observed=st["six"], expected=model)
+            return
+        if st["tag"] == "I":
+            mi = [b2f(t) for t in toks[7:]]
+            for nm, a_, b_ in zip(INFOS_READ, st["infos"], mi):
+                if a_ is None:
+                    continue
+                tol = 2e-10 * budget * (max(abs(a_), abs(b_)) + (1.0 if nm in ("fpa", "sin_fpa", "cos_fpa") else 0.0)) + (1e-6 if nm == "period" else 0.0)   # timedelta: microseconds
+                if not ((not math.isfinite(a_) and not math.isfinite(b_)) or abs(a_ - b_) <= tol):
+                    out.fail(st["fam"].replace("history-", "hist-") + "-" + nm, f"infos.{nm} read from the real object at this point of the history differs from the state machine model",
+                             dict(inp, step=st["step"]), observed=a_, expected=b_)
+                    return
+
+
 def correspondence(ctx):
     import numpy as np
     out = Outcome()
@@ -1002,8 +1746,12 @@ def correspondence(ctx):
         reqs.append(" ".join(["infos", f2b(mu), f2b(r), f2b(kep.a), f2b(kep.e), f2b(kep.nu)]))
         meta.append(("infos", vals, None, None, hyper, 1.0, {"body": frs[k].center.body.name, "r": r, "a": float(kep.a), "e": float(kep.e), "nu": float(kep.nu)}))
         out.count(key=reqs[-1], kind="infos-" + ("hyp" if hyper else "ell"))
+    hist_correspondence(ctx, out, reqs, meta)
     replies = core.Driver().run(reqs)
     for req, (kind, real, form, scales, hyper, cond, inp), rep in zip(reqs, meta, replies):
+        if kind == "hist":
+            hist_compare(out, real, rep, inp)
+            continue
         if kind == "m2e":
             if rep == "fuel":
                 if math.isfinite(real):
@@ -1051,6 +1799,10 @@ def replay(f):
         out.count(key="replay")
         if not (math.isfinite(got) and abs(res) <= 1e-6 * max(1.0, abs(inp["M"]))):
             out.fail(fail["family"], fail["what"], inp, observed=got, expected=fail.get("expected"))
+        return out
+    if "init" in inp and "ops" in inp:
+        run_history(inp["init"], inp["ops"], hist_frames(), out)
+        out.failures = [x for x in out.failures if x["family"] == fail["family"]][:1]
         return out
     if "a" in inp and "Omega" in inp:
         frs = frames()
